@@ -69,6 +69,8 @@ class C15(Check):
             {"kind": "A", "impl": "MailboxLock", "users": [[1], [2], [1, 1]], "seed": 1},
             {"kind": "A", "impl": "Parallel", "users": [[1], [1]], "seed": 2},
             {"kind": "A", "impl": "Parallel", "users": [[2, 1], [1], [3]], "seed": 3},
+            {"kind": "A", "impl": "Parallel", "users": [[-1, 1], [-2], [1]], "seed": 4},
+            {"kind": "A", "impl": "MailboxLock", "users": [[-1, 1], [-2], [1]], "seed": 5},
             {"kind": "B", "n": 2, "window": True, "script": [(1, "enter"), (1, "send"), (1, "exit"), (0, "init"), (0, "enter"), (0, "send"), (0, "exit")]},
             {"kind": "B", "n": 2, "window": True, "script": [(1, "enter"), (1, "send"), (1, "send"), (1, "exit"), (0, "init"), (1, "enter"), (1, "send"), (1, "exit")]},
             {"kind": "B", "n": 2, "window": False, "script": [(0, "enter"), (1, "enter"), (0, "send"), (0, "exit"), (1, "poll"), (1, "send"), (1, "exit")]},
@@ -81,7 +83,8 @@ class C15(Check):
         rng = self.rng
         out = []
         for _ in range(60 if self.tier == "quick" else 600):
-            users = [[rng.randint(1, 3) for _ in range(rng.randint(1, 3))] for _ in range(rng.randint(2, 4))]
+            # a negative entry -k: the exchange sends k messages and then fails (the body raises, e.g. an SDO abort)
+            users = [[rng.randint(1, 3) * (-1 if rng.random() < 0.25 else 1) for _ in range(rng.randint(1, 3))] for _ in range(rng.randint(2, 4))]
             out.append({"kind": "A", "impl": rng.choice(["MailboxLock", "Parallel"]), "users": users, "seed": rng.randrange(1 << 30)})
         for _ in range(25 if self.tier == "quick" else 250):
             n = rng.randint(2, 3)
@@ -137,18 +140,23 @@ class C15(Check):
                     for _ in range(rng.randint(0, 2)):
                         await asyncio.sleep(0)
                     evs.append(("acquire", u))
-                    async with lk:
-                        log.append([0, u])
-                        for _ in range(sends):
+                    try:
+                        async with lk:
+                            log.append([0, u])
+                            for _ in range(abs(sends)):
+                                for _ in range(rng.randint(0, 2)):
+                                    await asyncio.sleep(0)
+                                c = lk.next_counter()
+                                evs.append(("send", u))
+                                log.append([1, u, c])
                             for _ in range(rng.randint(0, 2)):
                                 await asyncio.sleep(0)
-                            c = lk.next_counter()
-                            evs.append(("send", u))
-                            log.append([1, u, c])
-                        for _ in range(rng.randint(0, 2)):
-                            await asyncio.sleep(0)
-                        evs.append(("release", u))
-                        log.append([2, u])
+                            evs.append(("release", u))
+                            log.append([2, u])
+                            if sends < 0:
+                                raise RuntimeError("the exchange failed after its messages were sent")
+                    except RuntimeError:
+                        pass
             try:
                 await asyncio.wait_for(asyncio.gather(*[user(u, ex) for u, ex in enumerate(case["users"])]), 120)
             finally:
